@@ -240,6 +240,16 @@ def check_error(err) -> tuple[str, str] | None:  # noqa: ANN001
     if not isinstance(src, str):
         return None
     s = tok.start
+    if type(tok).__name__ == "ErrorToken":
+        # a lexer error token spans exactly the text it is about
+        val = getattr(tok, "value", "")
+        if val and not (0 <= tok.start <= tok.stop <= len(src) and src[tok.start : tok.stop] == val):
+            return ("error-position:ErrorToken:span-is-not-its-text",
+                    f"span {tok.start}..{tok.stop} holds {src[max(tok.start, 0) : max(tok.stop, 0)]!r}, the token's text is {val!r}")
+        ms, me = getattr(tok, "markup_start", None), getattr(tok, "markup_stop", None)
+        if isinstance(ms, int) and isinstance(me, int) and ms >= 0 and tok.start >= 0 and not (ms <= tok.start <= max(me, ms)):
+            return ("error-position:ErrorToken:outside-its-markup",
+                    f"error at {tok.start}, the markup being scanned spans {ms}..{me}")
     if s < 0:
         return None  # sentinel, error carries no position
     if s > len(src):
